@@ -1,8 +1,9 @@
 """C11: see DESIGN.md section 4 C11."""
-from _ccmon import standard_plan, layout_steps, floor_msgs, COMMON_ASSUMPTIONS
+from _ccmon import standard_plan, layout_steps, floor_msgs, COMMON_ASSUMPTIONS, EVOLVE_NOTE
 
 LEVEL = "exploration"
 RULE = 'histories are generated per shard from (seed, index) by harness/src/gen.rs (weights of mode C11: mark_alive / clone / weak traffic / try_unwrap raised so that objects enter and leave the buffer in every way; few finalizer scripts) plus the directed corpus harness/src/directed.rs; each is executed against the real crate with all oracles on, followed by an epilogue that releases everything and collects until quiet. distinct = distinct expanded operation lists (FNV hash); non-trivial iff the buffer reached length >= 3 and at least three different leave-operations (clone, mark_alive, downgrade, upgrade, unwrap, collection) were observed in the history'
+RULE += EVOLVE_NOTE
 ASSUMPTIONS = COMMON_ASSUMPTIONS
 FLOORS = {'buffer_exact_membership_checks': 100000, 'allocated_bytes_checks': 100000, 'executions_count_checks': 100000}
 
